@@ -3,6 +3,7 @@ package props
 import (
 	"bytes"
 	"encoding/hex"
+	"encoding/json"
 
 	"github.com/Comcast/gots/v2/packet"
 	"github.com/Comcast/gots/v2/pes"
@@ -387,6 +388,61 @@ func c11CheckSubsets(c c11SubsetCase) engine.Result {
 	})
 	res.Trans += res.Evals
 	res.Outcome(c.Subset)
+	return res
+}
+
+// ---- scenarios "first-call-in-process" / "first-call-worker" ----------------------------------------------------
+
+// c11CheckFreshFirst is the body executed in a worker: the complete header of the stream id, judged as in
+// header-shapes. Reached through c11FreshIso.Replay it is the FIRST decoder call of a new process.
+func c11CheckFreshFirst(c c11FirstCase) engine.Result {
+	var res engine.Result
+	id := byte(c.StreamID)
+	class := c11Class(id)
+	var w ref.BitWriter
+	p := ref.PES{StreamID: id, PTSDTS: 3, PTS: c11TSPairs[3][0], DTS: c11TSPairs[3][1], Payload: c11Payload, PacketLength: -1}
+	c11SetFlags6(&p, 0x04)
+	c11ApplyOpt(&p, 0)
+	_, dataAt := p.AppendTo(&w)
+	full := append([]byte{}, w.Out()...)
+	engine.SetCurrent("pes.NewPESHeader", full)
+	engine.Guard(&res, "NewPESHeader", func() {
+		res.Nontrivial++
+		if class == c11Optional {
+			c11Judge(&res, full, class, id, &p, dataAt)
+		} else {
+			c11Judge(&res, full, class, id, &p, 6)
+		}
+	})
+	res.Outcome(class)
+	return res
+}
+
+var c11FreshIso = &engine.Isolated[c11FirstCase]{
+	Enum: engine.Enum[c11FirstCase]{
+		Name: "first-call-worker",
+		Rule: "(worker side of first-call-in-process; run on its own it decodes the complete header of every stream_id in sharded worker processes)",
+		Gen: func(r *engine.Run, emit func(c11FirstCase)) {
+			for id := 0; id < 256; id++ {
+				emit(c11FirstCase{id})
+			}
+		},
+		Check: c11CheckFreshFirst, Batch: 1,
+	},
+}
+
+// c11CheckFreshProcess starts a NEW process for the one case: whatever the library builds lazily on its first
+// call (tables, once-initialised classifications) is built by a header of exactly this stream id.
+func c11CheckFreshProcess(c c11FirstCase) engine.Result {
+	raw, _ := json.Marshal(c)
+	res, err := c11FreshIso.Replay(raw)
+	if err != nil {
+		res.Failf("harness|fresh-process", "could not start a worker: %v", err)
+	}
+	for i := range res.Fail {
+		res.Fail[i].Sig = "first-call-of-the-process|" + res.Fail[i].Sig
+	}
+	res.Nontrivial = 1
 	return res
 }
 
@@ -813,6 +869,7 @@ func c11Pre(r *engine.Run) {
 }
 
 func init() {
+	engine.RegisterIsolated("C11", "first-call-worker")
 	engine.Register(&engine.Property{
 		ID: "C11", Title: "PES header decoding matches ISO 13818-1 for every header shape", Level: "model_checking",
 		Pre: c11Pre,
@@ -827,6 +884,17 @@ func init() {
 				},
 				Check: c11CheckFirst, Batch: 8,
 			},
+			&engine.Enum[c11FirstCase]{
+				Name: "first-call-in-process",
+				Rule: "for every stream_id a NEW process is started (one isolated worker per case) whose very first decoder call is the complete header of that id with PTS and DTS, judged as in header-shapes: anything the library initialises lazily on its first use is initialised by each of the 256 ids in turn",
+				Gen: func(r *engine.Run, emit func(c11FirstCase)) {
+					for id := 0; id < 256; id++ {
+						emit(c11FirstCase{id})
+					}
+				},
+				Check: c11CheckFreshProcess, Batch: 4,
+			},
+			c11FreshIso,
 			&engine.Enum[c11ShapeCase]{
 				Name: "header-shapes",
 				Rule: "case = stream_id (all 256) x low six bits of the first flag byte (scrambling, priority, alignment, copyright, original: 6 patterns, thorough 36); Check builds every combination of PTS_DTS_flags {00,10,11} x timestamp pairs (7 boundary pairs, thorough 12) x other optional fields {none, ESCR+ES_rate+trick+copy_info+CRC+extension, each field alone, 3 extension variants} x header stuffing {0,1,2,3, up to PES_header_data_length 255} x payload {0,1,5 bytes} x PES_packet_length {consistent, 0, 0xFFFF}; ids with optional header: prefix, stream id, DataAligned, HasPTS/HasDTS, PTS/DTS values, Data() vs. the builder's data offset; the 7 ids without optional header: the same bytes (plus cuts to 1,2,3,5 data bytes) must come back from offset 6; 0xBC: prefix and id only; every prefix of the header is executed for panics, and where it ends behind the timestamps their presence and values are judged; non-trivial = each distinct byte string judged",
